@@ -512,9 +512,19 @@ def _scalar_array_function(self, func, types, args, kwargs):
     return h(*args, **kwargs)
 
 
+def _scalar_getitem(self, idx):
+    o = np.empty((), dtype=object)
+    o[()] = self
+    r = o[idx]
+    if isinstance(r, np.ndarray):
+        return SymArray(r, dt_of(self))
+    return r
+
+
 for _cls in (R, C, SymBool):
     _cls.__array_ufunc__ = _scalar_array_ufunc
     _cls.__array_function__ = _scalar_array_function
+    _cls.__getitem__ = _scalar_getitem
 
 
 def _sa(a):
